@@ -334,6 +334,7 @@ class Interp:
 
     def origin(self, node: ast.AST | None):
         act = self.stack[-1] if self.stack else None
+        act = getattr(act, "origin_as", None) or act       # (a field's default factory runs on behalf of the instantiating function)
         return (act.fi.qualname if act and act.fi else "?", getattr(node, "lineno", None), act.id if act else 0)
 
     def new_list(self, segs, node=None, tree=None):
@@ -1480,6 +1481,8 @@ class Interp:
         """(source, element expression, loop id) when ``it`` is a list that holds exactly one computed value per element of
         another sequence (a finished ``map`` / comprehension without conditions): walking it is walking the source."""
         o = self.obj(it)
+        if isinstance(o, HList) and not getattr(o, "dirty", False) and len(o.segs) == 1 and o.segs[0][0] == "s" and isinstance(self.obj(o.segs[0][1]), HList):
+            return self._map_source(o.segs[0][1])          # a copy (``list(ys)``) of such a list
         if not (isinstance(o, HList) and not getattr(o, "dirty", False) and len(o.segs) == 1 and o.segs[0][0] == "loop"
                 and len(o.segs[0][2]) == 1 and o.segs[0][2][0][0] == "e"):
             return None
@@ -1712,6 +1715,8 @@ class Interp:
                     segs.append(("e", self.ev(f, n.elt, tree)))
             if ok:
                 return self.new_list(segs, n, tree)
+        if kind in ("list", "gen") and self._known_empty(it, tree):
+            return self.new_list([], n, tree)
         ns = self._nest_source(it) if not g.is_async else None
         if ns is not None:
             # a comprehension over a list that nested generators made: the same generators again, then this one's element
@@ -1924,6 +1929,34 @@ class Interp:
             pre = self._prelude_for(nm, args, kwargs)
             if pre is not None:
                 return self.call_function(st, self.facts.prelude().functions[pre[0]], pre[1], {}, n, tree)
+            if nm in ("copy.copy", "dataclasses.replace") and len(args) == 1 and isinstance(self.obj(args[0]), HInst) and (nm == "dataclasses.replace" or not kwargs) \
+                    and self.obj(args[0]).cls.find_method("__copy__") is None and (nm == "copy.copy" or self.obj(args[0]).cls.is_dataclass):
+                # a shallow copy of an object of the package: a new object whose attributes hold the very same values (lists and
+                # dictionaries are shared with the original); ``replace`` rebinds the named fields on the copy
+                src_ = args[0]
+                cls_ = self.obj(src_).cls
+                if nm == "dataclasses.replace":
+                    names_ = [k for c in reversed(cls_.mro()) for k in c.annotations]
+                    noinit = False
+                    for fnm in names_:
+                        ca = cls_.find_class_attr(fnm)
+                        if ca is not None and isinstance(ca[1], ast.Call) and any(k.arg == "init" and isinstance(k.value, ast.Constant) and k.value.value is False
+                                                                                  for k in ca[1].keywords):
+                            noinit = True       # such a field is made anew by replace(): go through the constructor below
+                    if not noinit and all(k in names_ for k in kwargs) and cls_.find_method("__post_init__") is None and cls_.find_method("__init__") is None:
+                        r_ = self.alloc(HInst(cls_, self.origin(n)))
+                        for (b_, a_), v_ in list(st.ext.items()):
+                            if b_ == src_:
+                                st.ext[(r_, a_)] = v_
+                        for k, v in kwargs.items():
+                            st.ext[(r_, k)] = v
+                        return r_
+                else:
+                    r_ = self.alloc(HInst(cls_, self.origin(n)))
+                    for (b_, a_), v_ in list(st.ext.items()):
+                        if b_ == src_:
+                            st.ext[(r_, a_)] = v_
+                    return r_
             if nm == "dataclasses.replace" and len(args) == 1 and args[0][0] == "tuple" and args[0] in self.types and self.types[args[0]].is_namedtuple:
                 cls_ = self.types[args[0]]
                 names_ = cls_.nt_fields()
@@ -1946,7 +1979,7 @@ class Interp:
                 return (nm.rsplit(".", 1)[1], tuple(a[1] for a in args))
             if nm in ("operator.iconcat", "operator.iadd") and len(args) == 2 and not kwargs and not is_const(args[0]) and args[0][0] != "tuple":
                 # ``a += b`` as a function: a sequence on the left is extended in place and handed back
-                tree.append(("mutate", args[0], "extend", (args[1],), getattr(n, "lineno", None)))
+                tree.append(("mutate", self._mutated(args[0]), "extend", (args[1],), getattr(n, "lineno", None)))
                 o_ = self.obj(args[0])
                 if isinstance(o_, HList):
                     o_.dirty = True
@@ -1997,7 +2030,7 @@ class Interp:
                     ob_.dirty = True
                 if name == "extend" and len(args) == 1:
                     args = [self._strip_or_empty(args[0])]
-                tree.append(("mutate", recv, name, tuple(args), line))
+                tree.append(("mutate", self._mutated(recv), name, tuple(args), line))
                 if name in ("pop", "popleft", "popitem", "setdefault"):
                     return ("call", "." + name, (recv,) + tuple(args), ())
                 return NONE
@@ -2191,7 +2224,9 @@ class Interp:
                     if "default_factory" in kw:
                         fe = kw["default_factory"]
                         dummy = FuncInfo(ca[0].module, None, ast.parse("def _class_body(): pass").body[0])
+                        caller_ = self.stack[-1] if self.stack else None
                         self.stack.append(Activation(dummy, len(self.stack)))
+                        self.stack[-1].origin_as = getattr(caller_, "origin_as", None) or caller_
                         try:
                             call = ast.Call(func=fe, args=[], keywords=[])
                             ast.copy_location(call, dv)
@@ -2258,7 +2293,7 @@ class Interp:
         g.forced = L
 
         def hook(v, gst, gtree, line, is_from=False):
-            gtree.append(("mutate", L, "extend" if is_from else "append", (v,), line))
+            gtree.append(("mutate", self._mutated(L), "extend" if is_from else "append", (v,), line))
         self.run_generator(g, st, tree, hook, node)
         self._straighten(L, g.tree)
         return L
@@ -2843,7 +2878,7 @@ class Interp:
     def st_Delete(self, s, st, tree):
         for t in s.targets:
             if isinstance(t, ast.Subscript):
-                tree.append(("mutate", self.ev(st, t.value, tree), "__delitem__", (self.ev(st, t.slice, tree),), s.lineno))
+                tree.append(("mutate", self._mutated(self.ev(st, t.value, tree)), "__delitem__", (self.ev(st, t.slice, tree),), s.lineno))
             elif isinstance(t, ast.Attribute):
                 tree.append(("delattr", self.ev(st, t.value, tree), t.attr, s.lineno))
             elif isinstance(t, ast.Name):
@@ -2936,7 +2971,7 @@ class Interp:
             if y[0] == "call" and y[1] in ("tuple", "list") and len(y[2]) == 1 and not y[3]:
                 y = y[2][0]         # the elements of the argument, in order
             if isinstance(tgt, ast.Name) and o.tuple_acc == (self.stack[-1].id if self.stack else 0, tgt.id):
-                tree.append(("mutate", cur, "extend", (self._strip_or_empty(y),), s.lineno))     # the loop's own accumulator
+                tree.append(("mutate", self._mutated(cur), "extend", (self._strip_or_empty(y),), s.lineno))     # the loop's own accumulator
                 return Outcome(live=st)
             # a tuple someone else holds as well: ``+=`` makes a new one and rebinds the name
             new = self.new_list([("s", cur), ("s", y)], s, tree)
@@ -2944,15 +2979,24 @@ class Interp:
             self.assign(st, tgt, new, tree, s.lineno)
             return Outcome(live=st)
         if isinstance(o, HList) and op == "Add":
-            tree.append(("mutate", cur, "extend", (self._strip_or_empty(y),), s.lineno))
+            tree.append(("mutate", self._mutated(cur), "extend", (self._strip_or_empty(y),), s.lineno))
             return Outcome(live=st)
+        if op == "Add" and isinstance(tgt, ast.Attribute) and cur[0] == "phi" and isinstance(cur[2], tuple) and cur[2][0] == "attr":
+            init = self.loops.get(cur[1], {}).get("carried_init", {}).get(cur[2])
+            if isinstance(self.obj(init), HList):
+                # the attribute held a list object when the loop began and has not been rebound in this iteration: ``+=`` extends
+                # that object in place and leaves the attribute as it is.  (Should some path of the loop rebind the attribute
+                # after all, the loop's end marks the list's content unknown - see _loop_common.)
+                tree.append(("mutate", self._mutated(init), "extend", (self._strip_or_empty(y),), s.lineno))
+                self.loops[cur[1]].setdefault("assumed_same_list", set()).add(cur[2])
+                return Outcome(live=st)
         if isinstance(o, HDict) and op == "BitOr" and self._dict_update(cur, y, tree, s.lineno):
             return Outcome(live=st)
         new = self.ev_BinOp_terms(op, cur, y, s)
         scalar_y = (is_const(y) and isinstance(y[1], (int, float, str))) or (y[0] == "call" and y[1] in ("len", "str", "int")) or y[0] in ("fstr",)
         if not self._rebinding_only(cur) and not scalar_y:
             # may be an in-place mutation of a list-like external value
-            tree.append(("mutate", cur, "augassign:" + op, (y,), s.lineno))
+            tree.append(("mutate", self._mutated(cur), "augassign:" + op, (y,), s.lineno))
         self.assign(st, tgt, new, tree, s.lineno)
         return Outcome(live=st)
 
@@ -3023,6 +3067,79 @@ class Interp:
                 out.add(nm)
         return out
 
+    def _plainly_assigned_attrs(self) -> set:
+        """attribute names bound by a plain assignment / deleted somewhere outside constructors (any object: by name)"""
+        got = getattr(self, "_plain_attrs", None)
+        if got is None:
+            got = set()
+            for fi in self.facts.all_functions():
+                if fi.name in ("__init__", "__new__", "__post_init__"):
+                    continue
+                aug = {id(n.target) for n in ast.walk(fi.node) if isinstance(n, ast.AugAssign) and isinstance(n.op, ast.Add)}
+                for n in ast.walk(fi.node):
+                    if isinstance(n, ast.Attribute) and isinstance(n.ctx, (ast.Store, ast.Del)) and id(n) not in aug:
+                        got.add(n.attr)
+            self._plain_attrs = got
+        return got
+
+    def _replace_terms(self, mapping, sub, states, heap_mark, loop_mark, info) -> None:
+        """Replace the placeholder terms of ``mapping`` by their values in everything made since the loop started: the loop's
+        effect tree (in place), the states of its exits, the objects allocated and the inner loops recorded meanwhile."""
+        memo: dict = {}
+
+        def sb(t):
+            if not isinstance(t, tuple) or not t or t[0] == "const":
+                return t        # (constants are never replaced - and ("const", 0) == ("const", False) as dictionary keys)
+            hit = memo.get(id(t))
+            if hit is not None and hit[0] is t:
+                return hit[1]
+            if t and t[0] == "phi" and t in mapping:
+                r = mapping[t]
+            else:
+                try:
+                    r = tuple(sb(x) if isinstance(x, (tuple, list)) else x for x in t)
+                except RecursionError:
+                    r = t
+                if all(a is b_ for a, b_ in zip(r, t)):
+                    r = t
+            memo[id(t)] = (t, r)
+            return r
+
+        def sb_any(x):
+            if isinstance(x, list):
+                return [sb_any(y) for y in x]
+            if isinstance(x, tuple):
+                return tuple(sb_any(y) if isinstance(y, list) else (sb(y) if isinstance(y, tuple) else y) for y in x) if any(isinstance(y, list) for y in x) else sb(x)
+            if isinstance(x, dict):
+                return {sb_any(k) if isinstance(k, tuple) else k: sb_any(v) for k, v in x.items()}
+            return x
+        sub[:] = [sb_any(n) for n in sub]
+        seen = set()
+        for st_ in states:
+            if id(st_) in seen:
+                continue
+            seen.add(id(st_))
+            for k in list(st_.env):
+                st_.env[k] = sb_any(st_.env[k])
+            for k in list(st_.ext):
+                st_.ext[k] = sb_any(st_.ext[k])
+        for oid, o in self.heap.items():
+            if oid <= heap_mark:
+                continue
+            if isinstance(o, HList):
+                o.segs = sb_any(list(o.segs))
+            elif isinstance(o, HDict):
+                o.entries = [tuple(sb_any(x) if isinstance(x, (tuple, list)) else x for x in e) for e in o.entries]
+        for l2, inf2 in self.loops.items():
+            if l2 < loop_mark:
+                continue
+            for fld in ("iter", "test", "conds"):
+                if fld in inf2 and isinstance(inf2[fld], tuple):
+                    inf2[fld] = sb_any(inf2[fld])
+            for fld in ("carried", "carried_init", "break_env"):
+                if isinstance(inf2.get(fld), dict):
+                    inf2[fld] = {k: sb_any(v) for k, v in inf2[fld].items()}
+
     def _stored_attrs(self, stmts) -> set:
         """Attribute names that executing ``stmts`` may store: stores in the statements themselves and, transitively, in every
         repository function or method whose name is called from them (resolution by name: an over-approximation)."""
@@ -3053,6 +3170,42 @@ class Interp:
                         calls.add(n.attr)       # property reads and bound methods passed as values
             return stores, calls
 
+        stores, calls = direct(stmts)
+        seen = set()
+        todo = list(calls)
+        while todo:
+            nm = todo.pop()
+            if nm in seen:
+                continue
+            seen.add(nm)
+            for fi in self._by_name.get(nm, ()):
+                if fi.qualname not in cache:
+                    cache[fi.qualname] = direct(fi.node.body)
+                st2, c2 = cache[fi.qualname]
+                stores |= st2
+                todo.extend(c2 - seen)
+        return stores
+
+    def _plainly_stored_attrs(self, stmts) -> set:
+        """Like _stored_attrs, for plain rebinding only (``x.a = v`` / ``del x.a``): ``x.a += more`` is left out."""
+        self._stored_attrs(stmts)          # (fills the by-name index)
+        cache = getattr(self, "_plain_cache", None)
+        if cache is None:
+            cache = self._plain_cache = {}
+
+        def direct(nodes):
+            stores, calls = set(), set()
+            for s in nodes:
+                aug = {id(n.target) for n in ast.walk(s) if isinstance(n, ast.AugAssign) and isinstance(n.op, ast.Add)}
+                for n in ast.walk(s):
+                    if isinstance(n, ast.Attribute) and isinstance(n.ctx, (ast.Store, ast.Del)) and id(n) not in aug:
+                        stores.add(n.attr)
+                    elif isinstance(n, ast.Call):
+                        f = n.func
+                        calls.add(f.attr if isinstance(f, ast.Attribute) else (f.id if isinstance(f, ast.Name) else ""))
+                    elif isinstance(n, ast.Attribute) and isinstance(n.ctx, ast.Load):
+                        calls.add(n.attr)
+            return stores, calls
         stores, calls = direct(stmts)
         seen = set()
         todo = list(calls)
@@ -3100,6 +3253,13 @@ class Interp:
             ms = self._map_source(it)
             if ms is not None:
                 it = ms[0]
+            enum_ms = None
+            if ms is None and it[0] == "call" and it[1] == "enumerate" and len(it[2]) == 1 and not it[3] and isinstance(s.target, (ast.Tuple, ast.List)) \
+                    and len(s.target.elts) == 2:
+                # ``for n, y in enumerate(ys)`` with ys one computed value per element of xs: positions and elements of xs
+                enum_ms = self._map_source(it[2][0])
+                if enum_ms is not None:
+                    it = ("call", "enumerate", (enum_ms[0],), ())
             info["iter"] = it
         names = self._assigned_names(s.body)
         aug_only = self._aug_only_names(s.body)
@@ -3126,6 +3286,11 @@ class Interp:
             if nm in f.env:
                 info["carried_init"][nm] = f.env[nm]
                 f.env[nm] = ("phi", lid, nm)
+        heap_mark = max(self.heap) if self.heap else 0
+        loop_mark = lid
+        if not hasattr(self, "_loop_heap_marks"):
+            self._loop_heap_marks = []
+        self._loop_heap_marks.append(heap_mark)
         # attributes the body (or anything it may call) stores are loop-carried state as well: key ('attr', object, name)
         stored = self._stored_attrs(s.body)
         attr_keys = []
@@ -3137,11 +3302,18 @@ class Interp:
                 attr_keys.append((b, a, key))
         sub: list = []
         if kind == "for":
-            self.bind_target(f, s.target, self._subst_loop(ms[1], ms[2], lid) if ms is not None else ("elem", lid), lid, it)
+            if enum_ms is not None:
+                self.bind_target(f, s.target.elts[0], ("idx", lid))
+                self.bind_target(f, s.target.elts[1], self._subst_loop(enum_ms[1], enum_ms[2], lid))
+            else:
+                self.bind_target(f, s.target, self._subst_loop(ms[1], ms[2], lid) if ms is not None else ("elem", lid), lid, it)
             # iteration over an inline generator / filter keeps its conditions
         else:
             info["test"] = self.ev_test(f, s.test, sub)
-        out = self.exec_block(s.body, f, sub)
+        try:
+            out = self.exec_block(s.body, f, sub)
+        finally:
+            self._loop_heap_marks.pop()
         end = self._merge_exit(out.live, out.cont)
         if end is not None:
             for nm in names:
@@ -3151,6 +3323,24 @@ class Interp:
                 v = end.ext.get((b, a))
                 if v is not None and v != ("phi", lid, key):
                     info["carried"][key] = v
+        # an attribute the body was thought to store (by name, on some object) but that keeps its value on every way out of the
+        # iteration was never loop-carried: its placeholder is the value it had before the loop - put back everywhere
+        inv = {}
+        for b, a, key in attr_keys:
+            ph = ("phi", lid, key)
+            outs = [x for x in (end, out.brk, out.ret) if x is not None]
+            if outs and all(x.ext.get((b, a)) == ph for x in outs) and key not in info["carried"]:
+                inv[ph] = info["carried_init"][key]
+        for key in info.get("assumed_same_list", ()):
+            if ("phi", lid, key) not in inv:
+                o_ = self.obj(info["carried_init"].get(key))
+                if o_ is not None:
+                    o_.dirty = True        # extended in place on the assumption that the attribute was never rebound - it was
+        if inv:
+            self._replace_terms(inv, sub, [x for x in (out.live, out.cont, out.brk, out.ret, end) if x is not None], heap_mark, loop_mark, info)
+            attr_keys = [(b, a, key) for b, a, key in attr_keys if ("phi", lid, key) not in inv]
+            for ph in inv:
+                info["carried_init"].pop(ph[2], None)
         if out.brk is not None:
             info["break_env"] = {nm: out.brk.env[nm] for nm in sorted(self._assigned_names(s.body)) if nm in out.brk.env}
             for b, a, key in attr_keys:
@@ -3439,7 +3629,47 @@ class Interp:
             if elems is not None and 0 < len(elems) <= 16 and not any(n[0] == "mutate" and n[1] == it for n in tree):
                 self.ev(st, s.iter, tree)
                 return self._unrolled(s, st, tree, elems, 0)
+        if not s.orelse:
+            probe2: list = []
+            it2 = self.ev(st.fork(), s.iter, probe2)
+            if self._effect_free(probe2) and self._known_empty(it2, tree):
+                self.ev(st, s.iter, tree)
+                return Outcome(live=st)         # nothing to walk: the body never runs
         return self._loop_common(s, st, tree, "for")
+
+    def _mutated(self, t):
+        """note that the object named by term t is changed in place somewhere (returns t)"""
+        if isinstance(t, tuple) and t and t[0] == "ref":
+            getattr(self, "_mutated_refs", None) is None and setattr(self, "_mutated_refs", set())
+            self._mutated_refs.add(t)
+            if t in getattr(self, "_assumed_empty", ()):
+                raise AnalysisError("a list taken as empty where a loop walked it is filled later in the same analysis (loop-carried accumulator walked before it grows)")
+        return t
+
+    def _known_empty(self, it, tree=None, depth=0) -> bool:
+        """``it`` is a sequence known to have no elements: an empty display nobody has touched, or zip / enumerate / reversed /
+        list / tuple / iter / sorted of one."""
+        if not isinstance(it, tuple) or not it or depth > 4:
+            return False
+        if it == ("tuple", ()):
+            return True
+        o = self.obj(it)
+        if isinstance(o, HList):
+            # ... and made inside the innermost running loop's iteration (a list that is empty now may have been filled by the
+            # time the next iteration gets here - the abstract iteration stands for all of them)
+            marks = getattr(self, "_loop_heap_marks", [])
+            ok = not o.segs and not getattr(o, "dirty", False) and it not in getattr(self, "_mutated_refs", ())
+            if ok and marks and it[1] <= marks[-1]:
+                # made before the running loop's iteration: taken as empty on the assumption that nothing fills it later - a later
+                # in-place change of this very object stops the analysis (see _mutated) instead of yielding a wrong normal form
+                if not hasattr(self, "_assumed_empty"):
+                    self._assumed_empty = set()
+                self._assumed_empty.add(it)
+            return ok
+        if it[0] == "call" and it[1] in ("zip", "enumerate", "reversed", "list", "tuple", "iter", "sorted") and it[2]:
+            args = it[2] if it[1] == "zip" else it[2][:1]
+            return any(self._known_empty(a, tree, depth + 1) for a in args) and (it[1] != "zip" or not any(k == "strict" for k, _ in (it[3] or ())))
+        return False
 
     def _unrolled(self, s, st, tree, elems, i) -> Outcome:
         """Iterations i.. of an unrolled loop; later iterations are nested in the branch of the current one that stays live."""
